@@ -52,6 +52,34 @@ def _is_shl_size(t):
     return _size_offset(t) is not None
 
 
+def _r8_allocator_gets_the_policy_set(ctx):
+    """R8 the set an address is chosen from is the set the policies left in the response, and the allocator is asked once: each handler's
+    call of Pool::allocate_address passes `response.address` itself (the payload of its Some), outside any loop. A second attempt
+    with a wider set (the network's pool when the policy's own is exhausted) gives out addresses the innermost policy excludes."""
+    P = ctx.P
+    n = 0
+    for b in P.bodies.values():
+        if b.id not in ("erbium::dhcp::handle_discover", "erbium::dhcp::handle_request"):
+            continue
+        T = terms(P, b)
+        cfg = cfg_of(b)
+        loops = [cfg.natural_loop(e) for e in cfg.back_edges()]
+        for bb, tm in b.calls():
+            if not (callee_name(tm) or "").endswith("Pool::allocate_address") or len(tm["args"]) < 4:
+                continue
+            n += 1
+            ctx.saw(b)
+            a = norm(T.call_args(bb)[3])
+            while a[0] in ("ref", "deref"):
+                a = norm(a[1])
+            own = a[0] == "payload" and a[1] == "Some" and norm(a[2])[0] == "field" and norm(a[2])[2] == "address"
+            in_loop = any(bb in l for l in loops)
+            ctx.check(own and not in_loop, "R8", "allocator-is-given-the-response's-own-set-once:%s" % b.id.rsplit("::", 1)[-1], ctx.where(b, tm["sp"]),
+                      "allocate_address must be called once with response.address (is %s; inside a loop: %s)" % (show(a)[:80], in_loop))
+    if ctx.config in ("default", "dhcp"):
+        ctx.floor("R8", "allocator calls in the handlers", n, 2)
+
+
 def run(ctx):
     P = ctx.P
     cg = callgraph(P)
@@ -59,6 +87,9 @@ def run(ctx):
     # "a host with a single-address reservation gets that address": whether the reserving policy applies at all is
     # decided by the policy walk, whose rules belong to C11
     ctx.include("C11", rules=("anchor", "R2", "R3", "R6"))
+    # the allocator remembers nothing between calls but the lease rows: no list of candidates worked out for an earlier pool
+    ctx.include("C18", rules=("R7",))
+    _r8_allocator_gets_the_policy_set(ctx)
     # ---------------- R1: host range bounds
     n = 0
     for b, bb, idx, s in list(find_aggs(P, "std::ops::Range")) + list(find_aggs(P, "std::ops::RangeInclusive")):
